@@ -22,7 +22,6 @@ KF_KINDS = {
     "union-pack": "union-speculative-packer",
     "nt-ovc": "schema-nt-override-in-containers",
     "ovr-nullable": "schema-overridden-nullable",
-    "nested-generic": "schema-nested-generic-same-typevar",
 }
 
 _modn = [0]
@@ -324,10 +323,6 @@ class Sites:
             e2 = {"T": t[2][0]} if k == "gdata" else {}
             if self.all_refs and d["clsname"] in self.clash_names:
                 self.out.append((path, "bare-name"))
-            if k == "gdata" and self.genv and self.genv.get("T") != t[2][0] and any(G.contains_tvar(f["type"]) for f in d["fields"]):
-                # G2[date] met inside the specialisation G1[int] (same type variable): the schema builder resolves G2's variable
-                # with G1's binding (known finding schema-nested-generic-same-typevar)
-                self.out.append((path, "nested-generic"))
             cfg = d.get("cfg") or {}
             saved = (self.ntd, self.nts, self.base)
             saved_genv = self.genv
@@ -415,7 +410,7 @@ def explain(err, sites) -> set:
     sp = list(err.absolute_schema_path)
     kinds = set()
     for path, kind in sites:
-        if kind in ("bare-name", "union-pack", "nested-generic"):
+        if kind in ("bare-name", "union-pack"):
             if ep[:len(path)] == path or path[:len(ep)] == ep and err.validator == "anyOf":
                 kinds.add(kind)
             continue
@@ -1238,13 +1233,11 @@ def run_fixed(ctx, descr, src, vals):
                 if errs:
                     e = errs[0]
                     kind = {"flag": "flag", "int keys": "nonstr-key", "same name": "bare-name",
-                            "overridden serialization of a nullable field": "ovr-nullable",
-                            "nested generic, same type variable": "nested-generic"}.get(descr)
+                            "overridden serialization of a nullable field": "ovr-nullable"}.get(descr)
                     ok_kf = (kind == "flag" and e.validator == "enum" and vsrc == "F.A | F.B") or \
                             (kind == "nonstr-key" and "propertyNames" in list(e.absolute_schema_path) and vsrc == "{1: 'a'}") or \
                             (kind == "bare-name" and ar) or \
-                            (kind == "ovr-nullable" and e.validator == "type" and list(e.absolute_path) == ["x"] and vsrc == "Ov(None)") or \
-                            (kind == "nested-generic" and list(e.absolute_path)[:1] in (["inner"], ["many"]))
+                            (kind == "ovr-nullable" and e.validator == "type" and list(e.absolute_path) == ["x"] and vsrc == "Ov(None)")
                     ctx.fail(f"{descr}: {vsrc} rejected: {e.message[:100]}",
                              {"entry": "fixed", "source": src, "dialect": dl, "all_refs": ar, "check": "validate", "value": vsrc,
                               "document": doc, "schema": s, "observed": e.message[:200], "expected": "no validation error"},
